@@ -533,7 +533,8 @@ static size_t gp_utf8_find_first_of(
 {
     for (size_t cplen, i = start; i < haystack_length; i += cplen) {
         cplen = gp_utf8_codepoint_length(haystack, i);
-        if (strstr(char_set, memcpy((char[8]){""}, (uint8_t*)haystack + i, cplen)) != NULL)
+        if (((uint8_t*)haystack)[i] != '\0' && // strstr() would find the empty string
+            strstr(char_set, memcpy((char[8]){""}, (uint8_t*)haystack + i, cplen)) != NULL)
             return i;
     }
     return GP_NOT_FOUND;
@@ -547,7 +548,8 @@ static size_t gp_utf8_find_first_not_of(
 {
     for (size_t cplen, i = start; i < haystack_length; i += cplen) {
         cplen = gp_utf8_codepoint_length(haystack, i);
-        if (strstr(char_set, memcpy((char[8]){""}, (uint8_t*)haystack + i, cplen)) == NULL)
+        if (((uint8_t*)haystack)[i] == '\0' || // strstr() would find the empty string
+            strstr(char_set, memcpy((char[8]){""}, (uint8_t*)haystack + i, cplen)) == NULL)
             return i;
     }
     return GP_NOT_FOUND;
